@@ -879,6 +879,22 @@ func ruleLayerOrder(c *Ctx, dv *dev) {
 						continue
 					}
 				}
+				// the table kept as a local array/slice indexed by the channel byte
+				if ia, ok := x.X.(*ssa.IndexAddr); ok && x.Op == token.MUL {
+					isByte := func(t types.Type) bool {
+						b, isB := t.Underlying().(*types.Basic)
+						return isB && b.Kind() == types.Uint8
+					}
+					byteIdx := isByte(ia.Index.Type())
+					if cv, isConv := ia.Index.(*ssa.Convert); isConv && isByte(cv.X.Type()) {
+						byteIdx = true // int(channel)
+					}
+					if byteIdx && fieldLoadOfAny(ia.X) == nil {
+						if _, isGlobal := ia.X.(*ssa.Global); !isGlobal {
+							return []string{"channel-colour"}
+						}
+					}
+				}
 			case *ssa.Extract:
 				v = x.Tuple
 				continue
